@@ -1,9 +1,37 @@
 // ---- prelude/flags.rs: models of the bitflags! types and libc constants (R12) ----------
-// x86_64-linux values; cross-checked against the real `libc` crate by tools/constcheck.
+// x86_64-linux values; cross-checked against the platform headers by tools/constcheck.py.
 pub mod libc {
     pub type mode_t = u32;
     pub type c_int = i32;
     pub const ENOENT: i32 = 2;
+    pub const EPERM: i32 = 1;
+    pub const ESRCH: i32 = 3;
+    pub const EINTR: i32 = 4;
+    pub const EIO: i32 = 5;
+    pub const ENXIO: i32 = 6;
+    pub const E2BIG: i32 = 7;
+    pub const ENOMEM: i32 = 12;
+    pub const EFAULT: i32 = 14;
+    pub const EBUSY: i32 = 16;
+    pub const ENODEV: i32 = 19;
+    pub const EISDIR: i32 = 21;
+    pub const ENFILE: i32 = 23;
+    pub const EMFILE: i32 = 24;
+    pub const ENOTTY: i32 = 25;
+    pub const ETXTBSY: i32 = 26;
+    pub const EFBIG: i32 = 27;
+    pub const ENOSPC: i32 = 28;
+    pub const ESPIPE: i32 = 29;
+    pub const EROFS: i32 = 30;
+    pub const EMLINK: i32 = 31;
+    pub const EPIPE: i32 = 32;
+    pub const ERANGE: i32 = 34;
+    pub const ENOTEMPTY: i32 = 39;
+    pub const EOVERFLOW: i32 = 75;
+    pub const EOPNOTSUPP: i32 = 95;
+    pub const ENOTSUP: i32 = 95;
+    pub const ESTALE: i32 = 116;
+    pub const EDQUOT: i32 = 122;
     pub const EBADF: i32 = 9;
     pub const EAGAIN: i32 = 11;
     pub const EACCES: i32 = 13;
